@@ -16,6 +16,7 @@ import (
 	"sort"
 	"strings"
 	"sync"
+	"sync/atomic"
 	"testing"
 	"time"
 
@@ -92,6 +93,9 @@ func realKeys(vs *types.ValidatorSet) []int {
 }
 
 func (r *rpcDouble) height(p *int64) (int64, error) {
+	if r.c == nil {
+		return 0, errors.New("server offline")
+	}
 	h := r.c.Tip()
 	if p != nil {
 		h = *p
@@ -190,18 +194,63 @@ func (r *rpcDouble) evidence(ctx *rpctypes.Context, ev types.Evidence) (*ctypes.
 	return &ctypes.ResultBroadcastEvidence{Hash: ev.Hash()}, nil
 }
 
-func startRPC(c *lib.Chain, l lie) *rpcDouble {
-	r := &rpcDouble{c: c, lie: l, hits: map[string]int{}}
-	routes := map[string]*rpcserver.RPCFunc{
-		"commit":             rpcserver.NewRPCFunc(r.commit, "height"),
-		"validators":         rpcserver.NewRPCFunc(r.validators, "height,page,per_page"),
-		"consensus_params":   rpcserver.NewRPCFunc(r.params, "height"),
-		"broadcast_evidence": rpcserver.NewRPCFunc(r.evidence, "evidence"),
+// The RPC servers are per-process and long-lived (three listening sockets in total): a fresh httptest server per case
+// exhausts the machine's ephemeral ports in the thorough tier (every closed listener port lingers in TIME_WAIT). A
+// case installs its doubles into the slots and drops all client connections when it is over.
+type rpcSlot struct {
+	srv *httptest.Server
+	cur atomic.Value // *rpcDouble
+}
+
+var (
+	slotsOnce sync.Once
+	slots     [3]*rpcSlot
+	slotsBusy sync.Mutex
+)
+
+func (s *rpcSlot) get() *rpcDouble { return s.cur.Load().(*rpcDouble) }
+
+func initSlots() {
+	defer func() {
+		if r := recover(); r != nil {
+			fmt.Println("VERIF-INFRA: cannot open the in-process RPC servers:", r)
+			panic(r)
+		}
+	}()
+	for i := range slots {
+		sl := &rpcSlot{}
+		sl.cur.Store(&rpcDouble{hits: map[string]int{}, lie: lie{kind: "offline"}})
+		routes := map[string]*rpcserver.RPCFunc{
+			"commit": rpcserver.NewRPCFunc(func(ctx *rpctypes.Context, h *int64) (*ctypes.ResultCommit, error) {
+				return sl.get().commit(ctx, h)
+			}, "height"),
+			"validators": rpcserver.NewRPCFunc(func(ctx *rpctypes.Context, h *int64, page, perPage *int) (*ctypes.ResultValidators, error) {
+				return sl.get().validators(ctx, h, page, perPage)
+			}, "height,page,per_page"),
+			"consensus_params": rpcserver.NewRPCFunc(func(ctx *rpctypes.Context, h *int64) (*ctypes.ResultConsensusParams, error) {
+				return sl.get().params(ctx, h)
+			}, "height"),
+			"broadcast_evidence": rpcserver.NewRPCFunc(func(ctx *rpctypes.Context, ev types.Evidence) (*ctypes.ResultBroadcastEvidence, error) {
+				return sl.get().evidence(ctx, ev)
+			}, "evidence"),
+		}
+		mux := http.NewServeMux()
+		rpcserver.RegisterRPCFuncs(mux, routes, log.NewNopLogger())
+		sl.srv = httptest.NewServer(mux)
+		slots[i] = sl
 	}
-	mux := http.NewServeMux()
-	rpcserver.RegisterRPCFuncs(mux, routes, log.NewNopLogger())
-	r.srv = httptest.NewServer(mux)
+}
+
+func startRPC(i int, c *lib.Chain, l lie) *rpcDouble {
+	slotsOnce.Do(initSlots)
+	r := &rpcDouble{c: c, lie: l, hits: map[string]int{}, srv: slots[i].srv}
+	slots[i].cur.Store(r)
 	return r
+}
+
+func stopRPC(i int) {
+	slots[i].cur.Store(&rpcDouble{hits: map[string]int{}, lie: lie{kind: "offline"}})
+	slots[i].srv.CloseClientConnections()
 }
 
 type truthfulApp struct {
@@ -240,14 +289,16 @@ type lightResult struct {
 func lightSync(t fataler, c *lib.Chain, lies []lie, trustH int64, hs []int) lightResult {
 	var servers []*rpcDouble
 	var urls []string
-	for _, l := range lies {
-		s := startRPC(c, l)
+	slotsBusy.Lock()
+	defer slotsBusy.Unlock()
+	for i, l := range lies {
+		s := startRPC(i, c, l)
 		servers = append(servers, s)
 		urls = append(urls, s.srv.URL)
 	}
 	defer func() {
-		for _, s := range servers {
-			s.srv.Close()
+		for i := range servers {
+			stopRPC(i)
 		}
 	}()
 	res := lightResult{served: map[string]int{}}
@@ -280,6 +331,9 @@ func lightSync(t fataler, c *lib.Chain, lies []lie, trustH int64, hs []int) ligh
 	s := statesync.VerifC14NewSyncer(config.StateSyncConfig{ChunkFetchers: 0, ChunkRequestTimeout: 10 * time.Second},
 		log.NewNopLogger(), proxy.NewAppConnSnapshot(cli), proxy.NewAppConnQuery(cli), sp, dir)
 	d := &driver{t: t, c: c, r: r, s: s, classes: map[string]bool{}}
+	for _, l := range lies {
+		d.c09sig = d.c09sig || l.kind == "hdr-forged-real"
+	}
 	res.d = d
 	for _, h := range hs {
 		sd := snapDesc{Height: uint64(h), Format: 1, Chunks: 1, Hash: fmt.Sprintf("hash-%d", h)}
@@ -409,6 +463,16 @@ func runLight(t *rapid.T, test string) {
 	if rapid.Bool().Draw(t, "two") {
 		hs = append(hs, rapid.IntRange(2, chainTip-2).Draw(t, "snap.h2"))
 	}
+	defer func() {
+		if r := recover(); r != nil {
+			if _, ok := r.(toleratedC09); !ok {
+				panic(r)
+			}
+			lib.ObservedKnown(findingC09a)
+			lib.ExcludedByKnown(findingC09a)
+			lib.Case(test, lib.FP(desc, trustH, hs, "c09"), true, "mode:"+mode, "known:c09-forged-header-accepted")
+		}
+	}()
 	res := lightSync(t, c, lies, trustH, hs)
 	if res.initErr != nil {
 		// the light client could not even initialise: nothing was bootstrapped. Must not happen with honest servers.
